@@ -775,6 +775,11 @@ def r_escape_inverse(ctx, repo):
                           'with allow_unicode=%s the line-break character %r is written unescaped inside double quotes: the '
                           'scanner folds it (it becomes a space, or is dropped next to one), so the scalar does not read back '
                           'character for character' % (au, c))
+            if not au and ord(c) > 0x7e:
+                rule.fail('raw-nonascii|%r' % c, f.module.rel, shown.lineno, f.qualname,
+                          norm(shown.test)[:80] if shown is not f.node else f.name,
+                          'without allow_unicode the character %r is written unescaped inside double quotes: the output is '
+                          'not ASCII although the caller did not allow Unicode' % c)
             if rx.search(c):
                 rule.fail('raw-nonprintable|%r|%s' % (c, au), f.module.rel, shown.lineno, f.qualname,
                           norm(shown.test)[:80] if shown is not f.node else f.name,
